@@ -29,17 +29,23 @@ N(id) == [k |-> "n", n |-> id]
 C(s) == [k |-> "c", c |-> s]
 
 \* torch function -> unit-scaled counterpart (by name, as functional._gen_torch_function_map builds it)
+\* an operation is what it computes, not how it is spelled: a @ b (operator.matmul) is a matmul, torch.softmax a softmax, and
+\* torch.rms_norm -- what TorchDynamo emits for nn.RMSNorm / F.rms_norm -- an rms_norm (before the fix these three spellings were
+\* not keys of the library's map: Legacy "fewer_spellings")
+Spellings == {"op.matmul", "torch.softmax", "torch.rms_norm"}
 TorchMapDom == {"F.linear", "F.gelu", "F.silu", "F.softmax", "torch.matmul", "F.dropout", "F.layer_norm", "F.rms_norm",
                 "F.embedding", "torch.conv1d", "F.scaled_dot_product_attention", "F.cross_entropy", "F.mse_loss", "torch.add"}
+               \cup (IF "fewer_spellings" \in Legacy THEN {} ELSE Spellings)
 UName(t) ==
   CASE t = "F.linear" -> "U.linear" [] t = "F.gelu" -> "U.gelu" [] t = "F.silu" -> "U.silu" [] t = "F.softmax" -> "U.softmax"
     [] t = "torch.matmul" -> "U.matmul" [] t = "F.dropout" -> "U.dropout" [] t = "F.layer_norm" -> "U.layer_norm"
     [] t = "F.rms_norm" -> "U.rms_norm" [] t = "F.embedding" -> "U.embedding" [] t = "torch.conv1d" -> "U.conv1d"
     [] t = "F.scaled_dot_product_attention" -> "U.scaled_dot_product_attention" [] t = "F.cross_entropy" -> "U.cross_entropy"
-    [] t = "F.mse_loss" -> "U.mse_loss" [] t = "torch.add" -> "U.add" [] OTHER -> t
+    [] t = "F.mse_loss" -> "U.mse_loss" [] t = "torch.add" -> "U.add"
+    [] t = "op.matmul" -> "U.matmul" [] t = "torch.softmax" -> "U.softmax" [] t = "torch.rms_norm" -> "U.rms_norm" [] OTHER -> t
 \* every way of writing an addition: a + b, a += b, torch.add(a, b), a.add(b), a.add_(b)
 AddTargets == {"op.add", "op.iadd", "torch.add", "m:add", "m:add_"}
-SelfAttnTargets == {"F.scaled_dot_product_attention", "U.scaled_dot_product_attention", "F.softmax", "U.softmax"}
+SelfAttnTargets == {"F.scaled_dot_product_attention", "U.scaled_dot_product_attention", "F.softmax", "U.softmax", "torch.softmax"}
 HasConstraintParam == {"U.gelu", "U.silu", "U.softmax", "U.matmul", "U.linear", "U.linear_readout", "U.conv1d", "U.add"}
 
 \* user replacement map: sequence of <<from, to>>
